@@ -16,6 +16,7 @@ RULE = ('(A) random well-typed trees (generator of C05, depth<=4): every identif
         'size, segment, compose slot, inconsistent repeated wildcard) that the reference matcher rejects must be rejected. '
         'A case = (probe kind, canonical tree, probed location / mutation); non-trivial = a dependency was witnessed, or '
         'MatchExpr was evaluated on an instance / rejected-by-reference non-instance.')
+RULE += " Round 6: instances in which one occurrence of a repeated wildcard faces the wildcard's own identifier (expressions may mention it), in both orders."
 ASSUMPTIONS = ['irsem is the meaning of the IR', 'identifiers used only as segment selectors are not probed (flat memory)']
 
 
@@ -102,6 +103,15 @@ def probe_reads(sh, e, seedtag, flagged=True):
                     d[exprgen.canon(t)] = ex.ExprId(t.name, t.size, is_term=True, is_reg=t.is_reg)
             if d:
                 probe_reads(sh, ref_subst(e, d), (seedtag, 'term'), flagged=False)
+            # and with its memory cells (and other compound nodes) carrying the mark, as the cells the symbolic evaluator hands back do
+            ef = exprgen.fresh_copy(e)
+            marked = 0
+            for t in exprgen.subterms(ef):
+                if t.__class__.__name__ in ('ExprMem', 'ExprOp', 'ExprCond', 'ExprSlice'):
+                    t.is_term = True
+                    marked += 1
+            if marked:
+                probe_reads(sh, ef, (seedtag, 'marked'), flagged=False)
         except irsem.IllFormed:
             pass
     c = exprgen.canon(e)
